@@ -1105,35 +1105,33 @@ class C19(Base):
                             break
         return False
 
-    def region_wrapper_tag_and_stray_opener(self, case, verdict):
-        """idempotence: some unwrap-block has a wrapper line that carries a tag of another element, and some opening tag of
-        a registered name has no closing tag of its own (stack rule)"""
+    def region_unwrap_and_stray_opener(self, case, verdict):
+        """idempotence: the source contains an unwrap-block and an opening tag of a registered name without a closing tag of
+        its own (stack rule: left open at the end, or given up when an outer element closed)"""
         if verdict.get("fail") != "C19-idempotence":
             return False
         src = case.meta["src"]
         names = set()
         for c in case.meta["cfgs"]:
             names.update([c["tl"], c["rm"]])
-        lines = src.split("\n")
-        stack, wrapper_tag = [], False
-        for ln, l in enumerate(lines):
-            for m in self.TAG_RE.finditer(l):
-                closing, name, attrs = m.group(1), m.group(2), m.group(3)
-                if not closing:
-                    stack.append((name, ln, any(w == "unwrap-block" or w.startswith("unwrap-block=") for w in attrs.split())))
-                else:
-                    for k in range(len(stack) - 1, -1, -1):
-                        if stack[k][0] == name:
-                            _, oln, unwrap = stack[k]
-                            # openers above the matched one are demoted to text; they are not stray "registered" openers
-                            # unless they stay unmatched to the end - handled below by what is left on the stack
-                            del stack[k + 1:]
-                            stack.pop()
-                            if unwrap and ln - oln >= 3 and ("<" in lines[oln + 1] or "<" in lines[ln - 1]):
-                                wrapper_tag = True
-                            break
-        stray = any(n in names for (n, _, _) in stack)
-        return wrapper_tag and stray
+        stack, unwrap_seen, stray = [], False, False
+        for m in self.TAG_RE.finditer(src):
+            closing, name, attrs = m.group(1), m.group(2), m.group(3)
+            if not closing:
+                uw = any(w == "unwrap-block" or w.startswith("unwrap-block=") for w in attrs.replace("\n", " ").split())
+                unwrap_seen = unwrap_seen or uw
+                stack.append(name)
+            else:
+                for k in range(len(stack) - 1, -1, -1):
+                    if stack[k] == name:
+                        # the openers above the matched one are given up
+                        if any(n in names for n in stack[k + 1:]):
+                            stray = True
+                        del stack[k:]
+                        break
+        if any(n in names for n in stack):
+            stray = True
+        return unwrap_seen and stray
 
     def oracle(self, case, impl, spec):
         ds = case.meta["_docs"]
